@@ -2,6 +2,6 @@
 (set-logic ALL)
 (declare-const perm_Wallet1_Val_1 Bool)
 (assert perm_Wallet1_Val_1)
-(define-fun t69 () Bool (not perm_Wallet1_Val_1))
-(assert t69)
+(define-fun t90 () Bool (not perm_Wallet1_Val_1))
+(assert t90)
 (check-sat)
